@@ -178,7 +178,7 @@ func c06Paging(r *R, fn *ssa.Function) {
 		case "modified_at=,uuid>": // enter / stay in exact-timestamp mode
 			fv, isC := ConstBool(fl)
 			ok := m != nil && u != nil && m.operand == ssa.Value(cursor) && isLastField(u.operand, "UUID") && isC && fv && cur == ssa.Value(cursor)
-			g1, _ := Guard(fn, pageReq.(ssa.Instruction), s.st, LtC("0 < len(page.Items)", ConstIntVP(0), isItemsLen))
+			g1, _ := Guard(fn, pageReq.(ssa.Instruction), s.st, IntC("0 < len(page.Items)", isItemsLen, token.GTR, 0, true))
 			g2, _ := Guard(fn, pageReq.(ssa.Instruction), s.st, EqC("last.ModifiedAt == filterTime", func(v ssa.Value) bool { return isLastField(v, "ModifiedAt") }, Is(cursor)))
 			r.Check(ok && g1 && g2, rule, fn, "exact mode: modified_at = cursor ∧ uuid > last.UUID", s.st.Pos(),
 				"entered only after a non-empty page that did not get past the cursor; sets the flag, keeps the cursor",
@@ -227,7 +227,7 @@ func c06Paging(r *R, fn *ssa.Function) {
 					}
 				}
 			}
-			e1, _ := IfEdges(fn, EqC("len(page.Items) == 0", isItemsLen, ConstIntVP(0)).Match)
+			e1, _ := IfEdges(fn, IntC("len(page.Items) == 0", isItemsLen, token.EQL, 0, true).Match)
 			e2, _ := IfEdges(fn, FalseC("!gettingExactTimestamp", Is(flag)).Match)
 			c1 := EdgeSet{}
 			c1.Add(cutAll).Add(e1)
@@ -286,7 +286,7 @@ func c06Paging(r *R, fn *ssa.Function) {
 				return
 			}
 			if al, isA := st.Addr.(*ssa.Alloc); isA && strings.HasSuffix(typeString(al.Type()), "arvados.Collection") && strings.HasSuffix(typeString(st.Val.Type()), "arvados.Collection") {
-				if (fcall.Block() == st.Block() && Before(fcall, st) || fcall.Block() != st.Block() && fcall.Block().Dominates(st.Block())) && loopHeaderOf(st.Block()) == inner {
+				if (fcall.Block() == st.Block() && Before(fcall, st) || fcall.Block() != st.Block() && Precedes(fcall, st)) && loopHeaderOf(st.Block()) == inner {
 					g, _ := Guard(fn, fcall, st, EqC("f(coll) == nil", Is(fcall), NilV))
 					okLast = okLast || g
 				}
